@@ -76,7 +76,14 @@ fn gen_number(ch: &mut Chooser, reals: &[f32]) -> Value<f32> {
             }
             crate::numgrid::value_of(crate::refnum::ex(a as i128, b as i128)).unwrap_or(Value::Number(Number::Integer(a)))
         }
-        4 => with_ns(|_, g| g[ch.below(g.len())].val.clone()),
+        4 => with_ns(|_, g| {
+            // (the grid also holds infinities and NaN, which are outside the readable subset)
+            let v = g[ch.below(g.len())].val.clone();
+            match &v {
+                Value::Number(Number::Real(x)) if !x.is_finite() => Value::Number(Number::Integer(0)),
+                _ => v,
+            }
+        }),
         5 | 6 => Value::Number(Number::Real(*ch.pick(reals))),
         _ => {
             let x = f32::from_bits(ch.raw());
